@@ -9,6 +9,7 @@ Model + theorems: lean/HalmosVerif/Model/Frontier.lean, Props/C15.lean.
 """
 from __future__ import annotations
 
+import contextlib
 import json
 import random
 import re
@@ -190,6 +191,7 @@ def s_clock(rng, depth, mode=None):
         TFn("get()", asm.return_word([0, "SLOAD"]), mutability="view"),
     ])
     get = call_view(FIRST_CREATED, GET)
+    # time passes between transactions (after each one), the first transaction runs at the setUp timestamp 1
     invs = [Inv("invariant_stamp_ne", fail_if(asm.eq_const(get, c + 1))),
             Inv("invariant_stamp_zero_or_pos", fail_if(get + [("push", 1 << 70), "LT"]))]
     return Scenario("InvClock", [tgt], invs, tsdeltas=[0, c], kind="clock-warp")
@@ -262,6 +264,30 @@ def s_symstore(rng, depth, variant=None):
                     setup_extra=extra, init_variants=[[(A, 0, x0)] for x0 in (0, 1, 7)])
 
 
+def s_assertinc(rng, depth, variant=None):
+    """target functions with BOTH a failing-assertion path and a normal state-changing path: `inc(x){assert(x != c); count += 1}`,
+    `arm(y){assert(y < 100); armed = 1}`; the invariants need inc twice / three times / inc after arm. Run with the probe reports
+    awaited before each deeper frontier level (`wait_probes`), so that "this function's assertion failure was already reported"
+    is the state of affairs when the next level is computed."""
+    v = rng.randrange(4) if variant is None else variant
+    c = rng.choice([7, 0, 1 << 255])
+    inc = TFn("inc(uint256 x)", asm.if_then(asm.eq_const(X, c), PANIC1) + [0, "SLOAD", 1, "ADD", 0, "SSTORE"], domains=[[c, 1, 2]])
+    arm = TFn("arm(uint256 y)", asm.if_then(X + [99, "LT"], PANIC1) + [1 + v % 2, 1, "SSTORE"],
+              domains=[[0, 100]])
+    fns = [inc, arm] if v < 2 else [arm, inc]
+    fns += [TFn("get()", asm.return_word([0, "SLOAD"]), mutability="view"), TFn("armed()", asm.return_word([1, "SLOAD"]), mutability="view")]
+    tgt = Target("Stepper", fns)
+    get = call_view(FIRST_CREATED, GET)
+    armed = call_view(FIRST_CREATED, asm.selector("armed()"))
+    invs = [Inv("invariant_count_lt2", fail_if(get + [1, "LT"])),                      # 1 < count
+            Inv("invariant_count_ne3", fail_if(asm.eq_const(get, 3), "flag")),
+            Inv("invariant_not_armed_and_one", fail_if(asm.eq_const(get, 1) + armed + ["AND"])),
+            Inv("invariant_count_lt9", fail_if(get + [8, "LT"]))]
+    scn = Scenario("InvStepper", [tgt], invs, kind="assert-and-mutate")
+    scn.wait_probes = True
+    return scn
+
+
 def s_symmap(rng, depth, variant=None):
     """SYMBOLIC target storage with a mapping: `set(){m[k1]=1; armed=1}` writes one entry, `probe(){if (armed) seen = m[k2]}` reads
     another, never-written entry (k2 a literal ≠ k1, or taken from calldata with require(k != k1)); `armed` and `seen` are assumed
@@ -309,7 +335,7 @@ def s_symmap(rng, depth, variant=None):
 
 
 TEMPLATES = [s_counter, s_counter, s_setter, s_toggle, s_token, s_token, s_owned, s_owned, s_clock, s_two, s_two, s_two, s_boom,
-             s_symstore, s_symmap]
+             s_symstore, s_symmap, s_assertinc]
 
 
 # ------------------------------------------------------------------------------------------------ halmos output
@@ -481,12 +507,44 @@ def check_filters_direct(ctx):
 # ------------------------------------------------------------------------------------------------ the check
 
 
+@contextlib.contextmanager
+def probes_awaited():
+    """before a frontier level ≥ 2 is computed, wait until every solver query submitted so far (the probes of the previous level:
+    assertion failures inside target functions) has been answered and its callback has run — what happens in an ordinary run
+    whenever the solver is faster than the invariant checks on the previous level"""
+    import time
+
+    from vlib import artifacts
+    from vlib.impl import use_repo
+
+    use_repo()
+    import halmos.__main__ as hm
+
+    orig = hm._compute_frontier
+
+    def compute(ctx_, depth_):
+        if depth_ >= 2:
+            artifacts._drain_executors(timeout=5.0)
+            time.sleep(0.05)
+        yield from orig(ctx_, depth_)
+
+    hm._compute_frontier = compute
+    try:
+        yield
+    finally:
+        hm._compute_frontier = orig
+
+
 def run_scenario(scn, depth, solver_cmd=None, **cfg):
     from vlib.artifacts import YICES_COMMAND, run_contract_offline
 
     desc, others = scn.build()
-    run = run_contract_offline(desc, others=others, solver_command=solver_cmd or YICES_COMMAND, invariant_depth=depth,
-                               solver_timeout_assertion="5000ms", **cfg)
+    wait = getattr(scn, "wait_probes", False)
+    if wait:
+        cfg.setdefault("solver_threads", 1)
+    with (probes_awaited() if wait else contextlib.nullcontext()):
+        run = run_contract_offline(desc, others=others, solver_command=solver_cmd or YICES_COMMAND, invariant_depth=depth,
+                                   solver_timeout_assertion="5000ms", **cfg)
     return desc, others, run
 
 
@@ -646,7 +704,7 @@ def make_item(seed, tmpl_idx, depth, mode=None, variant=None):
     tmpl = TEMPLATES[tmpl_idx % len(TEMPLATES)]
     if mode:
         scn = tmpl(rng, depth, mode)
-    elif variant is not None and tmpl in (s_token, s_owned, s_two, s_symstore, s_symmap):
+    elif variant is not None and tmpl in (s_token, s_owned, s_two, s_symstore, s_symmap, s_assertinc):
         scn = tmpl(rng, depth, variant)
     else:
         scn = tmpl(rng, depth)
@@ -677,6 +735,9 @@ def correspond(ctx):
     # directed: symbolic target storage, "explicit zero" vs "never written", both function orders
     for v in range(6):
         items.append(make_item(3000 + v, TEMPLATES.index(s_symstore), 1 + v % 2, variant=v))
+    # directed: target functions with an assertion-failure path and a mutating path, called repeatedly (probe reports awaited)
+    for v in range(4):
+        items.append(make_item(5000 + v, TEMPLATES.index(s_assertinc), 2 + v % 2, variant=v))
     # directed: symbolic mapping storage, write m[k1] then read the never-written m[k2] (literal / calldata key, both orders)
     for v in range(6):
         items.append(make_item(4000 + v, TEMPLATES.index(s_symmap), 2 if v < 4 else (1 + v % 2 * 2), variant=v))
